@@ -669,15 +669,10 @@ class Moon(object):
             and (target != "last")
         ):
             raise ValueError("'target' value is invalid")
-        # Let's start computing the year with decimals
-        y, m, d = epoch.get_date()
-        num_days_year = 365.0
-        if Epoch.is_leap(y):
-            num_days_year = 366.0
-        doy = Epoch.get_doy(y, m, d)
-        year = y + doy / num_days_year
-        # We compute the 'k' parameter
-        k = round((year - 2000.0) * 12.3685, 0)
+        # We compute the 'k' parameter: number of mean lunations since the
+        # mean New Moon of 2000 January 6 (with the year with decimals 'k'
+        # drifts by up to two weeks towards the years -2000 and 4000)
+        k = round((epoch.jde() - 2451550.09766) / 29.530588861, 0)
         if target == "first":
             k += 0.25
         elif target == "full":
@@ -881,15 +876,10 @@ class Moon(object):
             and (target != "apogee")
         ):
             raise ValueError("'target' value is invalid")
-        # Let's start computing the year with decimals
-        y, m, d = epoch.get_date()
-        num_days_year = 365.0
-        if Epoch.is_leap(y):
-            num_days_year = 366.0
-        doy = Epoch.get_doy(y, m, d)
-        year = y + doy / num_days_year
-        # We compute the 'k' parameter
-        k = round((year - 1999.97) * 13.2555, 0)
+        # We compute the 'k' parameter: number of mean anomalistic months
+        # since the mean perigee of 1999 December 22 (with the year with
+        # decimals 'k' drifts by up to two weeks towards the year 4000)
+        k = round((epoch.jde() - 2451534.6698) / 27.55454989, 0)
         if target == "apogee":
             k += 0.5
         t = k / 1325.55
@@ -1069,15 +1059,10 @@ class Moon(object):
             and (target != "descending")
         ):
             raise ValueError("'target' value is invalid")
-        # Let's start computing the year with decimals
-        y, m, d = epoch.get_date()
-        num_days_year = 365.0
-        if Epoch.is_leap(y):
-            num_days_year = 366.0
-        doy = Epoch.get_doy(y, m, d)
-        year = y + doy / num_days_year
-        # Compute the 'k' parameter
-        k = round((year - 2000.05) * 13.4223, 0)
+        # Compute the 'k' parameter: number of mean draconic months since the
+        # mean node passage of 2000 January 21 (with the year with decimals
+        # 'k' drifts by up to two weeks towards the year 4000)
+        k = round((epoch.jde() - 2451565.1619) / 27.212220817, 0)
         if target == "descending":
             k += 0.5
         t = k / 1342.23
@@ -1183,15 +1168,11 @@ class Moon(object):
             and (target != "southern")
         ):
             raise ValueError("'target' value is invalid")
-        # Let's start computing the year with decimals
-        y, m, d = epoch.get_date()
-        num_days_year = 365.0
-        if Epoch.is_leap(y):
-            num_days_year = 366.0
-        doy = Epoch.get_doy(y, m, d)
-        year = y + doy / num_days_year
-        # We compute the 'k' parameter
-        k = round((year - 2000.03) * 13.3686, 0)
+        # We compute the 'k' parameter: number of mean tropical months since
+        # the mean event of January 2000 (with the year with decimals 'k'
+        # drifts by up to two weeks towards the year 4000)
+        jde0 = 2451562.5897 if target == 'northern' else 2451548.9289
+        k = round((epoch.jde() - jde0) / 27.321582247, 0)
         t = k / 1336.86
         # Compute the following angles in degrees, plus 'jde' in days
         D = 333.0705546 * k + (-0.0004214 + 0.00000011 * t) * t * t
